@@ -2,7 +2,7 @@
 from vf import kani as K
 
 def run_kani_only(run, names, bounds, outside, assumes, features=(), timeout=None, keyprefix='k'):
-    run.bounds = bounds; run.outside = outside; run.assumes = assumes
+    run.bounds = dict(run.bounds or {}, **bounds); run.outside = outside; run.assumes = assumes
     res = K.run_harnesses(run, names, timeout=timeout or (600 if run.tier == 'quick' else 2400), features=features)
     for r in res:
         if not r['failed']: continue
@@ -12,6 +12,9 @@ def run_kani_only(run, names, bounds, outside, assumes, features=(), timeout=Non
     for r in res:
         run.sample({'harness': r['harness'], 'verdict': r['verdict'], 'checks': r['n_checks'], 'verification_s': r['verification_s']})
     def confirm(c, nd, nr):
+        if c['request'].get('op') == 'serde':
+            obs = {'dev': nd.request(c['request']), 'release': nr.request(c['request'])}
+            return any(o.get('kind') != 'ok' or o.get('library') != o.get('serde_json') for o in obs.values()), obs
         # the counterexample is replayed by Kani's own concrete playback (generated unit test run natively against the crate)
         ok_, out = K.playback_native(c['request']['harness'], features=tuple(c['request']['features']))
         return ok_, {'playback': out[-600:]}
